@@ -36,6 +36,10 @@ deriving Repr, Inhabited
 def colIndex : String → Option Nat
   | "fb" => some 0 | "ff" => some 1 | "fi" => some 2 | "fs" => some 3 | _ => none
 
+/-- the types of the four columns fb, ff, fi, fs. -/
+def colType : Nat → ColType
+  | 0 => .bool | 1 => .float | 2 => .int | _ => .string
+
 def parseCell (s : String) : Option (Option Int) :=
   if s == "_" then some none else s.toInt?.map some
 
@@ -102,24 +106,26 @@ def St.containers (st : St) (s : Nat) : List (List (List FRow)) :=
 
 def St.seriesData (st : St) (s c : Nat) : SeriesData :=
   match st.containers s with
-  | mem :: chunks => ⟨mem.flatten.map (·.col c), chunks.map (fun ch => ch.map (fun seg => seg.map (·.col c)))⟩
-  | [] => ⟨[], []⟩
+  | mem :: chunks => ⟨colType c, mem.flatten.map (·.col c), chunks.map (fun ch => ch.map (fun seg => seg.map (·.col c)))⟩
+  | [] => ⟨colType c, [], []⟩
 
-/-- field-wise merge of a full row into a time-sorted list (existing cells win). -/
-def insertFRow (r : FRow) : List FRow → List FRow
-  | [] => [r]
-  | x :: xs =>
-    if r.t < x.t then r :: x :: xs
-    else if r.t = x.t then
-      ⟨x.t, (x.cs.zip r.cs).map (fun (a, b) => if a.isSome then a else b)⟩ :: xs
-    else x :: insertFRow r xs
+/-- field-wise merge of two time-sorted row lists: at equal times the cells of the first list
+(the containers of higher precedence) win, its null cells are filled from the second. This is
+`insertRow` of the model applied row by row, done in one pass. -/
+def mergeF : List FRow → List FRow → List FRow
+  | [], ys => ys
+  | xs, [] => xs
+  | x :: xs, y :: ys =>
+    if x.t < y.t then x :: mergeF xs (y :: ys)
+    else if y.t < x.t then y :: mergeF (x :: xs) ys
+    else ⟨x.t, (x.cs.zip y.cs).map (fun (a, b) => if a.isSome then a else b)⟩ :: mergeF xs ys
+termination_by xs ys => xs.length + ys.length
 
 /-- the rows of the plain select for one series: every container restricted to the range and
 the field filter (evaluated on the container's own row), then merged field by field. -/
 def St.view (st : St) (s : Nat) (lo hi : Int) (f : Option Filter) : List FRow :=
   (st.containers s).foldl (fun acc c =>
-    ((c.flatten).filter (fun r => decide (lo ≤ r.t) && decide (r.t ≤ hi) && Filter.pass f r)).foldl
-      (fun a r => insertFRow r a) acc) []
+    mergeF acc ((c.flatten).filter (fun r => decide (lo ≤ r.t) && decide (r.t ≤ hi) && Filter.pass f r))) []
 
 /-! ### printing -/
 
@@ -162,9 +168,8 @@ def callValue (c : Call) (s : Stats) : Option String × Option Int :=
 def baseSec : Int := 1700000000
 
 /-- start of the bucket (relative seconds) that holds relative second `t`. -/
-def window (w : Int) (t : Int) : Int :=
-  let abs := baseSec + t
-  abs - abs.emod w - baseSec
+def window (w : Int) (t : Int) : Int := bucketStart w (baseSec + t) - baseSec
+
 
 def groupOf (grp : String) (s : Nat) : String :=
   if grp == "host" then "h" ++ toString s
@@ -186,13 +191,33 @@ def Query.shape (q : Query) : QueryShape :=
     ctxFieldCond := q.filter.isSome, schemaFieldCond := q.filter.isSome, isProm := false,
     hint := if q.exact then Hint.ExactStatisticQuery else Hint.DefaultNoHint }
 
-/-- per series and call: the statistics record of one bucket (`none` = no bucketing). -/
-def St.seriesStats (st : St) (q : Query) (s : Nat) (c : Call) (bucket : Option Int) : Stats :=
-  let rows := st.view s q.lo q.hi q.filter
+/-- per series and call: the statistics record of one bucket (`none` = no bucketing); `rows` are
+the rows of the plain select for the series. -/
+def St.seriesStats (st : St) (q : Query) (s : Nat) (rows : List FRow) (c : Call) (bucket : Option Int) : Stats :=
   let rows := match bucket with
     | none => rows
     | some b => rows.filter (fun r => window q.interval r.t == b)
   answer q.shape q.lo q.hi (st.seriesData s c.col) (rows.map (·.col c.col))
+
+/-- two ascending lists share an element. -/
+def sharesTime : List Int → List Int → Bool
+  | [], _ => false
+  | _, [] => false
+  | x :: xs, y :: ys =>
+    if x < y then sharesTime xs (y :: ys)
+    else if y < x then sharesTime (x :: xs) ys
+    else true
+termination_by xs ys => xs.length + ys.length
+
+def anyPairShares : List (List Int) → Bool
+  | [] => false
+  | c :: cs => cs.any (sharesTime c) || anyPairShares cs
+
+/-- some series holds a timestamp of the range in two containers (`¬ NoKeyTwiceIn`). -/
+def St.keyTwiceIn (st : St) (lo hi : Int) : Bool :=
+  st.seriesList.any (fun s =>
+    anyPairShares ((st.containers s).map (fun c =>
+      ((c.flatten).filter (fun r => decide (lo ≤ r.t) && decide (r.t ≤ hi))).map (·.t))))
 
 def dedupSorted (l : List Int) : List Int :=
   (l.mergeSort (· ≤ ·)).foldr (fun x acc => match acc with
@@ -204,23 +229,32 @@ def St.evalAgg (st : St) (q : Query) : String :=
   let groups : List String :=
     (series.map (groupOf q.grp)).foldl (fun acc g => if acc.contains g then acc else acc ++ [g]) []
   let groups := groups.mergeSort (· ≤ ·)
+  -- the plain select, once per series
+  let views : List (Nat × List FRow) := series.map (fun s => (s, st.view s q.lo q.hi q.filter))
+  let viewOf := fun (s : Nat) => match views.find? (·.1 == s) with
+    | some p => p.2
+    | none => []
   let lone := q.calls.length == 1 && q.interval == 0 && (q.calls.all (fun c => isSelector c.f))
+  -- excluded case (un-hinted, a key of the range in two containers): the statistics path sees
+  -- rows the plain select does not show; the time of a lone min/max is left open
+  let openTime := lone && matchPreAgg q.shape && (q.calls.all (fun c => c.f == "min" || c.f == "max")) &&
+    st.keyTwiceIn q.lo q.hi
   let out := groups.filterMap (fun g =>
     let ss := series.filter (fun s => groupOf q.grp s == g)
     -- buckets that hold a row of the group
     let buckets : List (Option Int) :=
       if q.interval == 0 then [none]
       else
-        let bs := dedupSorted (ss.flatMap (fun s => (st.view s q.lo q.hi q.filter).map (fun r => window q.interval r.t)))
+        let bs := dedupSorted (ss.flatMap (fun s => (viewOf s).map (fun r => window q.interval r.t)))
         bs.map some
     let rowsOut := buckets.filterMap (fun b =>
       let vals := q.calls.map (fun c =>
-        let v := callValue c (ss.foldl (fun acc s => acc.merge (st.seriesStats q s c b)) {})
+        let v := callValue c (ss.foldl (fun acc s => acc.merge (colType c.col) (st.seriesStats q s (viewOf s) c b)) {})
         -- what InfluxQL leaves open is replaced by a marker, judged on the rows of the plain
         -- select: several values at the extreme time (first/last), the extreme value at
         -- several times (point time of a lone min/max)
         let pts : List (Int × Int) := ss.flatMap (fun s =>
-          ((st.view s q.lo q.hi q.filter).filter (fun r => match b with
+          ((viewOf s).filter (fun r => match b with
             | none => true
             | some x => window q.interval r.t == x)).filterMap (fun r =>
               (r.cs.getD c.col none).map (fun x => (r.t, x))))
@@ -240,7 +274,8 @@ def St.evalAgg (st : St) (q : Query) : String :=
       else
         let bt := match b with | some x => toString x | none => "-"
         let atT := if lone then match vals.head? with
-          | some (_, some t) => "@" ++ toString t
+          | some (some _, some t) => if openTime then "@~" else "@" ++ toString t
+          | some (none, some t) => "@" ++ toString t
           | some (some _, none) => "@~"
           | _ => "" else ""
         let cells := (q.calls.zip vals).map (fun (c, v) =>
